@@ -8,7 +8,7 @@ ID = "C19"
 BUDGET = {"quick": 1200, "thorough": 150000}
 RULE = ("scenario = 1-4 jobs created through all six calls with args in {None, (), 1-5 values incl. nested/mutable} and kwargs in "
         "{None, {}, 1-6 entries}; between polls the harness mutates the dict it passed as kwargs (add/remove/overwrite keys), the "
-        "set it passed as tags, and the set returned by job.tags; >= 3 executions per job (forced polls); Spec: every invocation "
+        "set it passed as tags, the set returned by job.tags, and the mapping job.kwargs of ONE job (the other jobs must not see it); >= 3 executions per job (forced polls); Spec: every invocation "
         "received exactly the original positional values and exactly the original key/value pairs, and tag queries select by the "
         "original tags; non-trivial = a job that ran >= 2 times with a mutation in between; distinct by scenario hash")
 ASSUMPTIONS = c01.ASSUMPTIONS + ["shallow insulation only: mutating a value stored inside kwargs is visible by design"]
@@ -35,7 +35,7 @@ def scenarios(rng, n, tier):
             if c < 0.55:
                 scn["ops"].append({"op": "exec", "rel": [rng.randrange(nj), 0], "force": True})
             elif c < 0.85:
-                scn["ops"].append({"op": "mutate", "key": rng.randrange(nj), "what": rng.choice(["kwargs", "tags", "returned_tags", "all"]), "how": rng.choice(["swap", "clear"])})
+                scn["ops"].append({"op": "mutate", "key": rng.randrange(nj), "what": rng.choice(["kwargs", "tags", "returned_tags", "all", "job_kwargs"]), "how": rng.choice(["swap", "clear"])})
             else:
                 scn["ops"].append({"op": "get", "tags": sorted(rng.sample(range(1, 6), rng.randint(1, 2))), "any": rng.random() < 0.5})
         yield scn
